@@ -410,6 +410,133 @@ pub fn run(tier: Tier) -> i32 {
     }
     rep.guard(n_dev_classes >= 8, "fewer than 8 distinct device classes");
 
+    // 9. surroundings: the word of an instruction does not depend on where the line stands - in
+    //    the body of a called macro (with and without unused parameters, called twice), in the
+    //    selected arm of a conditional (the other arms hold other instructions), behind data,
+    //    RAM and EEPROM segments, behind an `.org`, in an included file, in a macro that an
+    //    included file defines. Every small case in every surrounding (the reduced core too).
+    let n_ctx_cases = AtomicU64::new(0);
+    let ctx_names = ["macro-body", "macro-body-called-twice", "selected-arm", "elif-arm-nested", "behind-other-segments", "behind-org", "included-file", "macro-from-included-file", "macro-in-arm-in-macro"];
+    {
+        let scratch = crate::report::Scratch::new("c01");
+        let n_file = AtomicU64::new(0);
+        let per = 256usize;
+        let sets: Vec<(Core, &str, Vec<ICase>)> = vec![(Core::Full, "", small.clone()), (Core::Reduced, REDUCED_PREFIX, red.clone())];
+        for (core, prefix, set) in sets.iter() {
+            let chunks: Vec<(usize, &[ICase])> = set.chunks(per).enumerate().collect();
+            chunks.par_iter().for_each(|(ci, ch)| {
+                let mut body = String::new();
+                let mut want: Vec<u8> = vec![];
+                for c in ch.iter() {
+                    body.push_str(&c.text());
+                    body.push('\n');
+                    want.extend(icase::expect_bytes(*core, c).unwrap());
+                }
+                // relative operands are written pc-relative, so the bytes do not depend on the address
+                for (k, name) in ctx_names.iter().enumerate() {
+                    // one surrounding per chunk in the quick tier (rotating), all in the thorough tier
+                    if !tier.thorough() && (ci + k) % 3 != 0 {
+                        continue;
+                    }
+                    let mut expect = want.clone();
+                    let mut files: Vec<(String, String)> = vec![];
+                    let src = match *name {
+                        "macro-body" => format!("{}.macro ctx_m\n{}.endm\nctx_m\n", prefix, body),
+                        "macro-body-called-twice" => {
+                            expect.extend(want.iter());
+                            format!("{}.macro ctx_m\n{}.endm\nctx_m 1, r2\nctx_m 3, 4\n", prefix, body)
+                        }
+                        "selected-arm" => format!("{}.equ ctx_one = 1\n.if ctx_one == 1\n{}.else\nnop\nldi r16, 1\n.endif\n", prefix, body),
+                        "elif-arm-nested" => format!("{}.ifndef ctx_nothing\n.if 0\nnop\n.elif 2 > 1\n{}.else\ninc r1\n.endif\n.else\nnop\n.endif\n", prefix, body),
+                        "behind-other-segments" => {
+                            if *core == Core::Full {
+                                format!("{}.dseg\nctx_v: .byte 3\n.eseg\nctx_e: .db 1, 2, 3\n.cseg\n{}", prefix, body)
+                            } else {
+                                format!("{}.dseg\nctx_v: .byte 3\n.cseg\n{}", prefix, body)
+                            }
+                        }
+                        "behind-org" => {
+                            let mut e = vec![0u8; 2 * 5];
+                            e[0] = 0; // nop at word 0, gap zero-filled up to word 5
+                            e.extend(want.iter());
+                            expect = e;
+                            format!("{}nop\n.org 5\n{}", prefix, body)
+                        }
+                        "included-file" => {
+                            files.push(("ctx_part.inc".into(), body.clone()));
+                            format!("{}.include \"ctx_part.inc\"\n", prefix)
+                        }
+                        "macro-from-included-file" => {
+                            files.push(("ctx_part.inc".into(), format!(".macro ctx_m\n{}.endm\n", body)));
+                            format!("{}.include \"ctx_part.inc\"\nctx_m\n", prefix)
+                        }
+                        "macro-in-arm-in-macro" => format!("{}.macro ctx_inner\n{}.endm\n.macro ctx_outer\n.if @0\nctx_inner\n.else\nnop\n.endif\n.endm\nctx_outer 1\n", prefix, body),
+                        _ => unreachable!(),
+                    };
+                    let with_eeprom = *name == "behind-other-segments" && *core == Core::Full;
+                    let o = if files.is_empty() {
+                        sut::build_str(&src)
+                    } else {
+                        let d = scratch.path.join(format!("t{}", n_file.fetch_add(1, Ordering::Relaxed)));
+                        std::fs::create_dir_all(&d).unwrap_or_else(|e| machinery_fail(&format!("C01 scratch: {}", e)));
+                        for (n, t) in files.iter() {
+                            std::fs::write(d.join(n), t).unwrap_or_else(|e| machinery_fail(&format!("C01 scratch: {}", e)));
+                        }
+                        std::fs::write(d.join("main.asm"), &src).unwrap_or_else(|e| machinery_fail(&format!("C01 scratch: {}", e)));
+                        let o = sut::build_file(d.join("main.asm"), std::collections::BTreeSet::new());
+                        let _ = std::fs::remove_dir_all(&d);
+                        o
+                    };
+                    n_ctx_cases.fetch_add(ch.len() as u64, Ordering::Relaxed);
+                    stats.cases.fetch_add(ch.len() as u64, Ordering::Relaxed);
+                    let good = matches!(&o, Outcome::Ok(b) if b.code == expect && (b.eeprom.is_empty() != with_eeprom));
+                    if good {
+                        continue;
+                    }
+                    // localise: the first line whose word differs (or the build's failure)
+                    let what = match &o {
+                        Outcome::Ok(b) => {
+                            let off = expect.len() - want.len().min(expect.len());
+                            let mut pos = if *name == "behind-org" { off } else { 0 };
+                            let mut first: Option<&ICase> = None;
+                            for c in ch.iter().chain(ch.iter()) {
+                                let w = icase::expect_bytes(*core, c).unwrap();
+                                if pos + w.len() > b.code.len() || b.code[pos..pos + w.len()] != w[..] {
+                                    first = Some(c);
+                                    break;
+                                }
+                                pos += w.len();
+                                if pos >= expect.len() {
+                                    break;
+                                }
+                            }
+                            match first {
+                                Some(c) => (c.mnem.to_string(), format!("`{}` does not assemble to its word there (byte offset {})", c.text(), pos)),
+                                None => ("-".to_string(), format!("the images differ in length or in the EEPROM ({} code bytes for {}, {} EEPROM bytes)", b.code.len(), expect.len(), b.eeprom.len())),
+                            }
+                        }
+                        other => (ch[0].mnem.to_string(), format!("the build fails: {}", other.brief())),
+                    };
+                    let mut files_json = serde_json::Map::new();
+                    let mut pasted = src.clone();
+                    for (n, t) in files.iter() {
+                        files_json.insert(n.clone(), json!(t));
+                        pasted = pasted.replace(&format!(".include \"{}\"\n", n), t);
+                    }
+                    if !files.is_empty() {
+                        files_json.insert("main.asm".into(), json!(src));
+                    }
+                    rep.violation(
+                        &format!("C01/surrounding={}/core={}/mnem={}", name, if *core == Core::Full { "full" } else { "reduced" }, what.0),
+                        || format!("{} instruction lines that assemble correctly on their own, placed in the surrounding `{}`: {}", ch.len(), name, what.1),
+                        || json!({"kind": if files.is_empty() { "build_str" } else { "file_tree" }, "source": src, "files": files_json, "main": "main.asm", "pasted_program": pasted, "expected": {"result": "ok", "code": sut::hex_trunc(&expect, 64)}, "observed": o.to_json()}),
+                    );
+                }
+            });
+        }
+    }
+    rep.guard(n_ctx_cases.load(Ordering::Relaxed) > 100_000, "fewer than 100000 instruction lines were placed in surroundings");
+
     let total = stats.cases.load(Ordering::Relaxed);
     rep.guard(n_small > 90_000, "small operand spaces shrank");
     rep.guard(ncls >= 110 && ncls <= 130, "unexpected number of mnemonic classes");
@@ -435,7 +562,7 @@ pub fn run(tier: Tier) -> i32 {
         "exhaustive": true,
         "space": {"small_full_core": n_small, "big_full_core": icase::BIG_TOTAL, "reduced_core": n_red,
                   "adjacent_class_pairs": n_pairs, "adjacent_class_triples": n_triples, "mnemonic_classes": ncls, "label_operand_programs": n_label_programs, "data_label_operand_programs": n_data_labels, "pc_operand_after_data_programs": n_pc_after_data, "lines_of_the_large_symbolic_program": n_large,
-                  "device_classes": n_dev_classes, "cases_under_a_selected_device": n_dev_cases.load(Ordering::Relaxed)},
+                  "surroundings": ctx_names.len(), "cases_in_a_surrounding": n_ctx_cases.load(Ordering::Relaxed), "device_classes": n_dev_classes, "cases_under_a_selected_device": n_dev_cases.load(Ordering::Relaxed)},
         "batches": stats.batches.load(Ordering::Relaxed),
         "batches_localised_one_per_build": stats.localised.load(Ordering::Relaxed),
         "reference_self_check": {"first_words_decoded": sc.decoded_first_words, "first_words_unknown": sc.unknown_first_words, "roundtrips": sc.roundtrips},
